@@ -6,12 +6,13 @@ import "github.com/tidwall/tile38/internal/vshim/vsched"
 type Int64 struct{ v int64 }
 
 func (a *Int64) Load() int64       { vsched.Point(); return a.v }
-func (a *Int64) Store(v int64)     { vsched.Point(); a.v = v }
-func (a *Int64) Add(d int64) int64 { vsched.Point(); a.v += d; return a.v }
+func (a *Int64) Store(v int64)     { vsched.Point(); vsched.Progress(); a.v = v }
+func (a *Int64) Add(d int64) int64 { vsched.Point(); vsched.Progress(); a.v += d; return a.v }
 func (a *Int64) CompareAndSwap(o, n int64) bool {
 	vsched.Point()
 	if a.v == o {
 		a.v = n
+		vsched.Progress()
 		return true
 	}
 	return false
@@ -23,19 +24,20 @@ func (a *Int64) Peek() int64 { return a.v }
 type Uint64 struct{ v uint64 }
 
 func (a *Uint64) Load() uint64        { vsched.Point(); return a.v }
-func (a *Uint64) Store(v uint64)      { vsched.Point(); a.v = v }
-func (a *Uint64) Add(d uint64) uint64 { vsched.Point(); a.v += d; return a.v }
+func (a *Uint64) Store(v uint64)      { vsched.Point(); vsched.Progress(); a.v = v }
+func (a *Uint64) Add(d uint64) uint64 { vsched.Point(); vsched.Progress(); a.v += d; return a.v }
 func (a *Uint64) Peek() uint64        { return a.v }
 
 type Int32 struct{ v int32 }
 
 func (a *Int32) Load() int32       { vsched.Point(); return a.v }
-func (a *Int32) Store(v int32)     { vsched.Point(); a.v = v }
-func (a *Int32) Add(d int32) int32 { vsched.Point(); a.v += d; return a.v }
+func (a *Int32) Store(v int32)     { vsched.Point(); vsched.Progress(); a.v = v }
+func (a *Int32) Add(d int32) int32 { vsched.Point(); vsched.Progress(); a.v += d; return a.v }
 func (a *Int32) CompareAndSwap(o, n int32) bool {
 	vsched.Point()
 	if a.v == o {
 		a.v = n
+		vsched.Progress()
 		return true
 	}
 	return false
@@ -45,17 +47,18 @@ func (a *Int32) Peek() int32 { return a.v }
 type Uint32 struct{ v uint32 }
 
 func (a *Uint32) Load() uint32        { vsched.Point(); return a.v }
-func (a *Uint32) Store(v uint32)      { vsched.Point(); a.v = v }
-func (a *Uint32) Add(d uint32) uint32 { vsched.Point(); a.v += d; return a.v }
+func (a *Uint32) Store(v uint32)      { vsched.Point(); vsched.Progress(); a.v = v }
+func (a *Uint32) Add(d uint32) uint32 { vsched.Point(); vsched.Progress(); a.v += d; return a.v }
 
 type Bool struct{ v bool }
 
 func (a *Bool) Load() bool   { vsched.Point(); return a.v }
-func (a *Bool) Store(v bool) { vsched.Point(); a.v = v }
+func (a *Bool) Store(v bool) { vsched.Point(); vsched.Progress(); a.v = v }
 func (a *Bool) CompareAndSwap(o, n bool) bool {
 	vsched.Point()
 	if a.v == o {
 		a.v = n
+		vsched.Progress()
 		return true
 	}
 	return false
